@@ -139,6 +139,15 @@ pub fn bases(thorough: bool) -> Vec<Base> {
     );
     for lv in if thorough { vec![0u32, 5, 11] } else { vec![5] } {
         out.push(Base { p: noisy.clone(), cfg: Cfg::lvl(L4::Both, lv), label: "noise/both" });
+        // shift the compressed stream against the chunk grid: every alignment of a brotli stream
+        // end relative to a chunk edge (and to the fail-safe input cache) occurs
+        for shift in (1..=CHUNK).step_by(if thorough { 1 } else { 2 }) {
+            let p = Program::new(
+                vec![Op::Start(0), Op::Append(0, shift), Op::Start(1), Op::Append(1, BLOCK + 3), Op::Append(0, 2 * CHUNK + 1), Op::End(1), Op::End(0)],
+                Entropy::Noise,
+            );
+            out.push(Base { p, cfg: Cfg::lvl(L4::Both, lv), label: "noise-shifted/both" });
+        }
     }
     if thorough {
         let pat = Program { entropy: Entropy::Pattern, ..noisy.clone() };
@@ -263,8 +272,14 @@ pub fn eval_fault(b: &Base, archive: &[u8], cstar: usize, f: &Fault, comp_plain:
         for (name, fa) in &a.files {
             let fu = u.files.get(name).map(|x| x.data.as_slice()).unwrap_or(&[]);
             if fu.len() < fa.data.len() || fu[..fa.data.len()] != fa.data[..] {
+                // why did the unauthenticated run stop? (part of the signature: a decoder failure on
+                // corrupted compressed data is a recorded finding, anything else is not)
+                let stop = if u.status_debug.contains("Invalid Data while decompressing") { "invalid_data_while_decompressing" } else { "other" };
+                let mut sg = sig("auth_not_prefix_of_unauth");
+                sg["unauth_stop"] = json!(stop);
+                sg["fault"] = json!(match f { Fault::Flip { .. } => "flip", Fault::Cut { .. } => "cut" });
                 rep.violate(Violation {
-                    sig: sig("auth_not_prefix_of_unauth"),
+                    sig: sg,
                     detail: format!("fault {:?}: {}: authenticated mode gives {} bytes, unauthenticated {} bytes, and the former is not a prefix of the latter", f, prog::short_name(name), fa.data.len(), fu.len()),
                     replay,
                     weight,
